@@ -457,8 +457,9 @@ hostile(const uint8_t * p, size_t n, int in_end, size_t limit, int method, size_
 static void
 attack(size_t nbuf, size_t limit, int in_end, const char * name, const char * fmt, ...)
 {
-	char t[70000]; va_list ap; int n;
+	static char t[160000]; va_list ap; int n;
 	va_start(ap, fmt); n = vsnprintf(t, sizeof(t), fmt, ap); va_end(ap);
+	if (n < 0 || (size_t)n >= sizeof(t)) vf_engine_error("attack %s: response does not fit the scratch buffer", name);
 	hostile((uint8_t *)t, (size_t)n, in_end, limit, 0, nbuf, "attack %s", name);
 }
 static void
@@ -487,6 +488,8 @@ gen_hostile(int thorough)
 				if (!near && (q % 16) != 0 && q != b.resplen) continue;
 			}
 			hostile(b.resp, q, FK_END_EOF, b.limit, b.method, 32, "truncate case %zu at %zu", i, q);
+			/* the same prefix followed by a connection reset instead of an orderly end */
+			hostile(b.resp, q, FK_END_ERR, b.limit, b.method, 32, "reset case %zu at %zu", i, q);
 		}
 		if (b.resplen > 200) continue;
 		for (q = 0; q < b.resplen; q++) {
@@ -547,11 +550,22 @@ gen_hostile(int thorough)
 	{ static const int cb[] = { FK_C_SOCKFAIL, FK_C_REFUSED, FK_C_ASYNC_FAIL, FK_C_ASYNC_OK, FK_C_EINTR_OK }; for (m = 0; m < 5; m++) { struct hcase * c = hostile((const uint8_t *)"HTTP/1.1 200 OK\r\nContent-Length: 2\r\n\r\nok", 40, FK_END_EOF, 100, 0, 32, "attack connect-behaviour %d", cb[m]); c->conn = cb[m]; } }
 	/* header block of 65532..65540 bytes; 1xx floods */
 	{
-		static char big[70000]; int total;
+		static char big[150000]; int total;
 		for (total = 65530; total <= 65542; total += (thorough ? 1 : 3)) {
 			int fixed = (int)strlen("HTTP/1.1 200 OK\r\nX: \r\nContent-Length: 0\r\n\r\n"), padn = total - fixed;
 			memset(big, 'h', (size_t)padn); big[padn] = 0;
 			attack(0, 100, FK_END_EOF, "64k-headers", "HTTP/1.1 200 OK\r\nX: %s\r\nContent-Length: 0\r\n\r\n", big);
+		}
+		/* header blocks well beyond 64 KiB, terminated or not, ended by EOF or by a reset: the client has to give up by itself */
+		{
+			static const int totals[] = {66000, 69632, 140000}; int ti;
+			for (ti = 0; ti < 3; ti++) {
+				memset(big, 'h', (size_t)totals[ti] > sizeof(big) - 1 ? sizeof(big) - 1 : (size_t)totals[ti]); big[(size_t)totals[ti] > sizeof(big) - 1 ? sizeof(big) - 1 : (size_t)totals[ti]] = 0;
+				attack(0, 100, FK_END_EOF, "oversized-headers-terminated", "HTTP/1.1 200 OK\r\nX: %s\r\nContent-Length: 2\r\n\r\nok", big);
+				attack(0, 100, FK_END_EOF, "oversized-headers-unterminated", "HTTP/1.1 200 OK\r\nX: %s", big);
+				attack(0, 100, FK_END_ERR, "oversized-headers-then-reset", "HTTP/1.1 200 OK\r\nX: %s", big);
+				attack(0, 100, FK_END_EOF, "oversized-header-lines", "HTTP/1.1 200 OK\r\n%.*s\r\nY: %.*s\r\nZ: %.*s", 30000, big, 30000, big, 9000, big);
+			}
 		}
 		{ static const int floods[] = {1, 50, 2000}; int f, k; struct sbuf b; for (f = 0; f < 3; f++) { b.p = NULL; b.n = b.cap = 0; for (k = 0; k < floods[f]; k++) sb_str(&b, "HTTP/1.1 100 Continue\r\n\r\n"); sb_str(&b, "HTTP/1.1 200 OK\r\nContent-Length: 2\r\n\r\nok"); hostile(b.p, b.n, FK_END_EOF, 100, 0, 0, "1xx flood x%d", floods[f]); hostile(b.p, b.n - 30, FK_END_EOF, 100, 0, 0, "1xx flood x%d truncated", floods[f]); free(b.p); } }
 	}
